@@ -130,9 +130,13 @@ def classOf (data : Bytes) : Option Bytes :=
 def isReplyAction (T : Tables) (a : Bytes) : Bool :=
   !(a == T.helpLineAction || a == T.eventReply || a == T.logEvent)
 
+/-- the fields of an emitted line: the line without its terminator, cut at the first two blanks
+(no stripping: white space that ends an echoed field is part of the echo) -/
+def outParts (o : Bytes) : Parts := parts o.dropLast
+
 def fitsLineB (T : Tables) (reqLine outLine : Bytes) : Bool :=
   let req := reqOf T reqLine
-  let p := parts (strip outLine)
+  let p := outParts outLine
   decide (FitsOk T req p.action p.spec)
   || (match classOf p.data with
       | some c => fitsErrB T req p.action p.spec c
@@ -164,7 +168,7 @@ def judge (T : Tables) (stream : Bytes) (outs : List Bytes) : Verdict :=
   | some i => .split i
   | none =>
     let reqs := (splitLines stream).lines
-    let reps := outs.filter (fun o => isReplyAction T (parts (strip o)).action)
+    let reps := outs.filter (fun o => isReplyAction T (outParts o).action)
     if reqs.length ≠ reps.length then .count reqs.length reps.length
     else match firstBad (fitsLineB T) 0 reqs reps with
       | some k => .misfit k
